@@ -257,6 +257,16 @@ pub fn solo_spec(prop: &str) -> Option<SoloSpec> {
     })
 }
 
+/// the spec with its tier-dependent adjustments (the single place where they are made)
+pub fn spec_for(prop: &str, tier: Tier) -> Option<SoloSpec> {
+    let mut spec = solo_spec(prop)?;
+    if tier == Tier::Thorough && prop == "C09" {
+        // thorough: a small share of 20000..50000-opcode runs (quadratic cost)
+        spec.profile.huge_bias = 0.0005;
+    }
+    Some(spec)
+}
+
 pub fn draw_for(spec: &SoloSpec, verif_seed: u64, tier: Tier, index: u64) -> Scenario {
     let _ = tier;
     let mut rng = mix::rng_from(desc::derive_seed(verif_seed, spec.prop, index));
@@ -504,10 +514,154 @@ pub fn n_threads() -> usize {
 
 /// run indices [0, runs) of a solo-family property, sharded over threads
 /// one simulated run of a solo-family property: draw, execute, judge, account
+/// scenario of run index i: seeded runs [0, runs), then deep periodic-script runs, then the
+/// enumeration of short scripts
+pub fn scenario_of(spec: &SoloSpec, seed: u64, tier: Tier, i: u64, runs: u64) -> Scenario {
+    let deep = deep_count(spec, tier);
+    if i < runs {
+        draw_for(spec, seed, tier, i)
+    } else if i < runs + deep {
+        deep_scenario(seed, tier, i - runs)
+    } else {
+        enum_scenario(spec, i - runs - deep)
+    }
+}
+
+/// C09 only: long runs driven by a *periodic* fuzzer script (a stuck or looping entropy source):
+/// the same few choices repeated tens of thousands of times build the deepest object graphs
+pub fn deep_count(spec: &SoloSpec, tier: Tier) -> u64 {
+    if spec.prop != "C09" {
+        return 0;
+    }
+    match tier {
+        Tier::Quick => 16,
+        Tier::Thorough => 400,
+    }
+}
+
+/// periodic-script patterns ranked by how deep an object graph they build in a cheap probe run
+/// (1200 opcodes, reference machine's nesting depth): an adaptive, seeded search for the inputs that
+/// nest deepest, computed identically in the supervisor and in every worker process
+fn deep_patterns(seed: u64) -> &'static Vec<(u8, Vec<u8>, u32)> {
+    use std::sync::OnceLock;
+    static CACHE: OnceLock<(u64, Vec<(u8, Vec<u8>, u32)>)> = OnceLock::new();
+    let c = CACHE.get_or_init(|| {
+        use rand::Rng;
+        // a supervisor computes the ranking once and hands it to its workers through a file
+        if let Ok(path) = std::env::var("PFSIM_DEEP_FILE") {
+            if let Ok(txt) = std::fs::read_to_string(&path) {
+                if let Ok(v) = serde_json::from_str::<Value>(&txt) {
+                    if v["seed"].as_str() == Some(&seed.to_string()) {
+                        if let Some(a) = v["patterns"].as_array() {
+                            let pats: Vec<(u8, Vec<u8>, u32)> = a
+                                .iter()
+                                .filter_map(|e| Some((e[0].as_u64()? as u8, desc::unhex(e[1].as_str()?).ok()?, e[2].as_u64()? as u32)))
+                                .collect();
+                            if !pats.is_empty() {
+                                return (seed, pats);
+                            }
+                        }
+                    }
+                }
+            }
+        }
+        let mut cands: Vec<(u8, Vec<u8>)> = vec![];
+        for p in 0..6u8 {
+            for b in 0..=255u8 {
+                cands.push((p, vec![b]));
+            }
+            let mut rng = mix::rng_from(desc::derive_seed(seed, "C09.deep.patterns", p as u64));
+            for _ in 0..96 {
+                let n = rng.random_range(2..=3);
+                cands.push((p, (0..n).map(|_| rng.random()).collect()));
+            }
+        }
+        let nt = n_threads();
+        let chunks: Vec<Vec<(u8, Vec<u8>, u32)>> = std::thread::scope(|s| {
+            let cands = &cands;
+            let hs: Vec<_> = (0..nt)
+                .map(|t| {
+                    s.spawn(move || {
+                        let mut out = vec![];
+                        let mut i = t;
+                        while i < cands.len() {
+                            let (p, pat) = &cands[i];
+                            let probe = 800usize;
+                            let mut c = Config::default_for(*p);
+                            c.min_opcodes = probe;
+                            c.max_opcodes = probe;
+                            let script: Vec<u8> = (0..probe + 64).map(|j| pat[j % pat.len()]).collect();
+                            let sc = Scenario::solo(c, Entropy::Bytes(script));
+                            let recs = exec::run_scenario(&sc, Trace::Off, false);
+                            let depth = recs
+                                .first()
+                                .and_then(|r| r.outcome.bytes())
+                                .map(|b| {
+                                    let (ops, err) = crate::lexer::lex(b);
+                                    if err.is_some() {
+                                        0
+                                    } else {
+                                        crate::machine::run(&ops, true, true).max_depth
+                                    }
+                                })
+                                .unwrap_or(0);
+                            out.push((*p, pat.clone(), depth));
+                            i += nt;
+                        }
+                        out
+                    })
+                })
+                .collect();
+            hs.into_iter().map(|h| h.join().unwrap()).collect()
+        });
+        let mut all: Vec<(u8, Vec<u8>, u32)> = chunks.into_iter().flatten().collect();
+        all.sort_by(|a, b| b.2.cmp(&a.2).then(a.0.cmp(&b.0)).then(a.1.cmp(&b.1)));
+        (seed, all)
+    });
+    &c.1
+}
+
+/// write the ranking to a file and export its path for worker processes
+pub fn export_deep_patterns(seed: u64) {
+    let pats = deep_patterns(seed);
+    let dir = format!("{}/target/tmp", verif_root());
+    let _ = std::fs::create_dir_all(&dir);
+    let path = format!("{}/deep-patterns-{}.json", dir, std::process::id());
+    let doc = json!({"seed": seed.to_string(), "patterns": pats.iter().map(|(p, b, d)| json!([p, desc::hex(b), d])).collect::<Vec<_>>()});
+    if std::fs::write(&path, doc.to_string()).is_ok() {
+        std::env::set_var("PFSIM_DEEP_FILE", &path);
+    }
+}
+
+pub fn deep_scenario(seed: u64, tier: Tier, k: u64) -> Scenario {
+    use rand::Rng;
+    let pats = deep_patterns(seed);
+    let mut rng = mix::rng_from(desc::derive_seed(seed, "C09.deep", k));
+    // the deepest-nesting patterns first
+    let (p, pat, probe_depth) = pats[(k as usize) % pats.len()].clone();
+    let n = match tier {
+        Tier::Quick => rng.random_range(28_000..36_000usize),
+        Tier::Thorough => [12_000usize, 20_000, 30_000, 40_000, 50_000][(k % 5) as usize],
+    };
+    let script: Vec<u8> = (0..n + 64).map(|j| pat[j % pat.len()]).collect();
+    let mut c = Config::default_for(p);
+    c.min_opcodes = n;
+    c.max_opcodes = n;
+    let mut sc = Scenario::solo(c, Entropy::Bytes(script));
+    sc.faults.push(desc::Fault {
+        kind: "stuck",
+        at: 0,
+        detail: format!("periodic script {:02x?} (nesting depth {} in an 800-opcode probe), {} opcodes", pat, probe_depth, n),
+    });
+    sc
+}
+
 pub fn run_one(spec: &SoloSpec, seed: u64, tier: Tier, i: u64, runs: u64, stats: &mut Stats) -> (Scenario, Vec<Violation>) {
-    let sc = if i >= runs { enum_scenario(spec, i - runs) } else { draw_for(spec, seed, tier, i) };
-    if i >= runs {
+    let sc = scenario_of(spec, seed, tier, i, runs);
+    if i >= runs + deep_count(spec, tier) {
         stats.bump("fault.cut.enumerated_short_script(runs)");
+    } else if i >= runs {
+        stats.bump("fault.stuck.periodic_script_long_run(runs)");
     }
     let recs = if spec.prop == "C14" { vec![] } else { exec::run_scenario(&sc, trace_for(spec, &sc), spec.spy) };
     stats.evaluations += 1;
@@ -679,14 +833,14 @@ where
 }
 
 pub fn sweep_solo(spec: &SoloSpec, tier: Tier, seed: u64, runs: u64, wall_cap_s: f64, known: &[KnownFinding]) -> SweepOutcome {
-    let total = runs + enum_count(spec, tier);
+    let total = runs + deep_count(spec, tier) + enum_count(spec, tier);
     sweep_indices(total, wall_cap_s, known, (0, 1), n_threads() as u64, None, |i, stats| run_one(spec, seed, tier, i, runs, stats))
 }
 
 /// the same sweep restricted to run indices <= upto (replay of a violation that depends on what
 /// the process executed before it)
 pub fn sweep_solo_prefix(spec: &SoloSpec, tier: Tier, seed: u64, runs: u64, upto: u64, known: &[KnownFinding]) -> SweepOutcome {
-    let total = (runs + enum_count(spec, tier)).min(upto + 1);
+    let total = (runs + deep_count(spec, tier) + enum_count(spec, tier)).min(upto + 1);
     sweep_indices(total, 3600.0, known, (0, 1), n_threads() as u64, None, |i, stats| run_one(spec, seed, tier, i, runs, stats))
 }
 
